@@ -126,6 +126,22 @@ Definition run_fmt (src : list N) : list N :=
   | o => print_outcome enc_script o
   end.
 
+(* deepparse <n>: "return 1 + 1" with the expression inside n pairs of parentheses.  The model parser is the
+   un-memoised PEG (time exponential in n), so it only takes part up to n = 12; beyond that (to 5000) the
+   case is an implementation-only deadline check and the expected line is "ok". *)
+Definition deep_source (n : nat) : list N := $"return " ++ repeat 40 n ++ $"1 + 1" ++ repeat 41 n.
+Definition deep_tree : script := [mkStmt [] (EAdd (EOperand 0) (EOperand 0))].
+Definition run_deep (n : N) : list N :=
+  if n <=? 12 then
+    match parse (deep_source (N.to_nat n)) with
+    | Ok c => if str_eqb (enc_script c) (enc_script deep_tree) then $"ok" else r_err $"tree"
+    | Err cls => r_err cls
+    | Panic cls => r_panic cls
+    | OutOfFuel => r_fuel
+    end
+  else if n <=? 5000 then $"ok"
+  else r_badcase.
+
 Definition run_acc (line : list N) : list N :=
   match split sp line with
   | [f; a] =>
@@ -136,6 +152,7 @@ Definition run_acc (line : list N) : list N :=
       else if str_eqb f $"loadtree" then match dec_script a with
                                          | Some c => if script_huge c then r_ok $"toolarge" else print_outcome (fun x => x) (show_load (load_tree c))
                                          | None => r_badcase end
+      else if str_eqb f $"deepparse" then match parse_decN a with Some n => run_deep n | None => r_badcase end
       else if str_eqb f $"expr" then match dec_expr a with Some e => r_ok (print_bytes (pr_expr e)) | None => r_badcase end
       else r_badcase
   | [f; a; b] =>
